@@ -612,6 +612,20 @@ class CallMixin:
             return [(T, VEnum(v.name, z3.IntVal(i))) for i in range(len(self.w.enum_members(v.name)))]
         raise Unsupported(f"iteration over {type(v).__name__} @ {self.where(n)}")
 
+    def comp_opaque(self, n, st):
+        """a comprehension `[f(s) for s in <opaque sequence>]` (one generator, no condition) over a sequence of unknown length: handed to the
+        specification's `map_opaque` rule when there is one (e.g. the lines of str.splitlines()); None when the rule does not apply"""
+        h = self.ext.get("map_opaque")
+        if h is None or isinstance(n, ast.DictComp) or len(n.generators) != 1 or n.generators[0].ifs: return None
+        g = n.generators[0]
+        if not isinstance(g.target, ast.Name): return None
+        saved = dict(st.env)
+        it = self.ev(g.iter, st)
+        if not isinstance(it, VOpaque): st.env = saved; return None
+        r = h(self, it, g.target.id, n.elt, st, n)
+        st.env = saved
+        return r
+
     def comp_elements(self, n, st):
         """generator/list comprehension with one or more `for` over concrete-length iterables -> [(guard, value)]"""
         out = []
@@ -636,8 +650,13 @@ class CallMixin:
         st.env = saved_env
         return out
 
-    def e_GeneratorExp(self, n, st): return VList([("$g", g, v) for g, v in self.comp_elements(n, st)])
+    def e_GeneratorExp(self, n, st):
+        r = self.comp_opaque(n, st)
+        if r is not None: return r
+        return VList([("$g", g, v) for g, v in self.comp_elements(n, st)])
     def e_ListComp(self, n, st):
+        r = self.comp_opaque(n, st)
+        if r is not None: return r
         els = self.comp_elements(n, st)
         if all(z3.is_true(g) for g, _ in els): return st.alloc("list", {"$l": VList([v for _, v in els])})
         return VList([("$g", g, v) for g, v in els])
